@@ -45,7 +45,7 @@ PROP = {
              "operations drawn from the real view's current shape + 1..5 projection queries (member_cast to each member, reinterpret_array_cast<U>() and <U>(n), reinterpret_array_cast<U>() with NON-integral size ratios (24 <-> 16 bytes: 70% of the 24-byte programs and 35% of the complex programs give every dimension strides and offsets divisible by 2 resp. 3, so that the cast is admissible; it is only emitted when the library's own assertions hold), "
              "static/const casts, blas::real/imag, element_transformed with value and reference functors incl. access-time and write-through probes, array construction "
              "from each); distinct = different program text; non-trivial = some projection answer with >= 2 elements"),
-    "level_text": "Theorems (all D, all well-formed views with arbitrary index bases, all element sizes with the code's divisibility assertion, all index tuples, all memory states): member_cast designates the byte at offsetof(member) inside each source element; reinterpret_array_cast<U>() keeps every element's first byte and reinterpret_array_cast<U>(n) appends a dimension [0,n) whose j-th element is at +j*sizeof(U), tiling the source element; static/const casts are the identity on layout and pointer; element_transformed(f)[idx] = f(source[idx]) for every memory state (hence at access time) and a reference functor writes exactly the designated object; every same-rank cast commutes with every operation of the view algebra (via C01.op_refines) and the rank-raising cast composes on both sides; array(view) has the view's extents and data[rowMajor idx] = conv(view[idx]). The model is tied to /repo by a differential run over generated views (byte offsets and values of every projected element).",
+    "level_text": "Theorems (all D, all well-formed views with arbitrary index bases, all element sizes with the code's divisibility assertion, all index tuples, all memory states): member_cast designates the byte at offsetof(member) inside each source element; reinterpret_array_cast<U>() keeps every element's first byte and reinterpret_array_cast<U>(n) appends a dimension [0,n) whose j-th element is at +j*sizeof(U), tiling the source element; static/const casts are the identity on layout and pointer; element_transformed(f)[idx] = f(source[idx]) for every memory state (hence at access time) and a reference functor writes exactly the designated object; every same-rank cast commutes with every operation of the view algebra (via C01.op_refines) and the rank-raising cast composes on both sides; array(view) has the view's extents and data[rowMajor idx] = conv(view[idx]). The model is tied to /repo by a differential run over generated views (byte offsets and values of every projected element). member_cast / reinterpret_array_cast (10 functions, gen_casts.py) and layout_t::scale (gen_layout.py) are regenerated from /repo's source on every run and proved equal to the model (GenTieCast.lean, GenTie.L_scale_tie).",
     "level_note": "Trusted: Lean kernel (+propext, Classical.choice, Quot.sound), the hand transcription MultiModel/Cast.lean validated by the correspondence run only, byte-address semantics of pointers, Int for ptrdiff_t, canonical order of elements() (C02). Index bases are arbitrary (the model follows the fixed layout_t::scale, which scales the offset). The conversion of element values (conv) is abstract in the theorem and exercised with int->double, complex<double>->complex<long double> in the run.",
 }
 
